@@ -108,6 +108,77 @@ def judge_obstacles(rows, seeds=()):
     return n, len(impl), replays, None
 
 
+def judge_lineage(rows, agent):
+    """the obstacle rules must hold on a state reached through a history: move_obstacles has already run on the lineage,
+    then a box holding an obstacle is opened; the released obstacle must be able to move like any other"""
+    from gym_gridverse.envs.transition_functions import transition_with_copy
+    y, x, h = agent
+    st = mkstate((rows, y, x, h, NONE))
+    st = transition_with_copy(TF['move_obstacles'], st, dyn.ACT['TURN_LEFT'], rng=ChoiceRng([]))
+    st = transition_with_copy(dyn.chain_fn(('actuate_box', 'move_obstacles')), st, dyn.ACT['ACTUATE'], rng=ChoiceRng([]))
+    base = sdesc(st)
+
+    def outcome_grids(factory):
+        out = set()
+        for choices, res, _ in explore(
+                lambda rng: gdesc(transition_with_copy(TF['move_obstacles'], factory(), dyn.ACT['TURN_LEFT'], rng=rng).grid), max_runs=5000):
+            out.add(res)
+        return out
+
+    impl = outcome_grids(lambda: st)                # the object reached through the history (copies keep its lineage)
+    fresh = outcome_grids(lambda: mkstate(base))    # a freshly built equal state
+    want = set()
+    init = R.obstacle_positions(base[0])
+    for order in itertools.permutations(range(len(init))):
+        want |= set(R.ref_move_obstacles_order(base[0], [init[i] for i in order]).values())
+    if not impl <= want:
+        return 'after a history (obstacles moved, then a box holding an obstacle opened) an outcome violates the rules'
+    if impl != fresh:
+        return ('after a history (obstacles moved, then a box holding an obstacle opened) the possible outcomes differ from '
+                f'those of a freshly built equal state ({len(impl)} vs {len(fresh)} outcomes): some obstacle never moves')
+    return None
+
+
+def lineage_cases():
+    F_, W, OB = FLOOR, WALL, U.OBST
+    BX = U.box(OB)
+    yield ((F_, F_, F_), (OB, F_, BX), (F_, F_, F_)), (1, 1, 'R')
+    yield ((F_, BX, F_), (F_, F_, F_), (OB, F_, F_)), (1, 1, 'F')
+    yield ((BX, F_), (F_, F_), (F_, OB)), (1, 0, 'F')
+    yield ((F_, F_, BX, F_),), (0, 1, 'R')
+    yield ((OB, F_, F_), (F_, F_, BX)), (1, 1, 'R')
+
+
+def judge_shared_telepods(s, a):
+    """telepods are compared by position and colour, not by object identity: one Telepod instance placed in several
+    cells (a layout written with a legend) behaves like distinct equal instances"""
+    fn = TF['teleport']
+    want = R.ref_teleport(s, a)
+    got = set()
+
+    def run(rng):
+        st = mkstate(s)
+        shared = {}
+        for yy, row in enumerate(st.grid.objects):
+            for xx, o in enumerate(row):
+                if type(o).__name__ == 'Telepod':
+                    row[xx] = shared.setdefault(o.color, o)
+        try:
+            fn(st, dyn.ACT[a], rng=rng)
+        except Exception as e:  # noqa: BLE001
+            return ('EXC', type(e).__name__, str(e)[:100])
+        return sdesc(st)
+
+    for choices, res, _ in explore(run, max_runs=200):
+        if res[0] == 'EXC':
+            return f'teleport raised {res[1]} when one Telepod instance occupies several cells'
+        got.add(res)
+    if got != want:
+        return (f'with one Telepod instance occupying several cells the outcomes {sorted((g[1], g[2]) for g in got)} differ from '
+                f'the rule {sorted((g[1], g[2]) for g in want)}')
+    return None
+
+
 def telepod_layouts(shape, max_t):
     h, w = shape
     cells = [(y, x) for y in range(h) for x in range(w)]
@@ -183,6 +254,11 @@ def _work(job):
                         stats['nontrivial'] += 1
                         if len(samples) < 1 and n > 1:
                             samples.append({'kind': 'tele', 's': s, 'a': a, 'outcomes': n})
+                    if not msg and a == 'ACTUATE' and rows[y][x][0] == 'Telepod':
+                        msg = judge_shared_telepods(s, a)
+                        if msg:
+                            fails.append({'kind': 'tele_shared', 's': s, 'a': a, 'message': msg, 'sig': {'fn': 'teleport', 'shared': True}})
+                            msg = None
                     if msg and len(fails) < 4:
                         partner = len(R.ref_teleport(s, a)) > 1 or (rows[y][x][0] == 'Telepod' and R.ref_teleport(s, a) != {s})
                         fails.append({'kind': 'tele', 's': s, 'a': a, 'message': msg,
@@ -195,6 +271,10 @@ def replay(case):
         return judge_obstacles(tup(case['rows']))[3]
     if case['kind'] == 'tele':
         return judge_teleport(tup(case['s']), case['a'])[2]
+    if case['kind'] == 'tele_shared':
+        return judge_shared_telepods(tup(case['s']), case['a'])
+    if case['kind'] == 'lineage':
+        return judge_lineage(tup(case['rows']), tuple(case['agent']))
     raise ValueError(case['kind'])
 
 
@@ -232,6 +312,14 @@ def run(rep, tier, seed):
         for smp in samples:
             rep.sample(smp, limit=6)
         fails.extend(fl)
+    ln = 0
+    for rows, agent in lineage_cases():
+        ln += 1
+        m = judge_lineage(rows, agent)
+        if m:
+            fails.append({'kind': 'lineage', 'rows': rows, 'agent': list(agent), 'message': m, 's': (rows,) + tuple(agent) + (NONE,),
+                          'sig': {'fn': 'move_obstacles', 'part': 'lineage'}})
+    rep.part('lineage', cases=ln, rule='obstacle outcome sets on states reached through move_obstacles -> open a box holding an obstacle')
     for f in fails:
         if 'INTERNAL-CONFORMANCE' in f['message']:
             raise SystemExit('INTERNAL: ' + f['message'])
